@@ -13,14 +13,18 @@ LEVEL_TEXT = ("For every generated well-formed vector/module over every supporte
               "every registry plasmid with exactly two sites under the generic class of its cutter and role, the tuple (accepted?, "
               "overhangs, target) on the record is related to the tuple on its reverse complement: same verdict, overhangs exchanged and "
               "reverse-complemented, target body reverse-complemented; assemblies of the reverse complements of all inputs must give "
-              "the reverse complement of the original product up to rotation.")
+              "the reverse complement of the original product up to rotation; and when the inputs carry features strictly inside their "
+              "retained fragments, both products must carry the same features, each reading the same 5'->3' along its own strand.")
 LEVEL_NOTE = "the reverse complement used for the deciding comparison is built by the harness's own string function, so a defect in CircularRecord.reverse_complement cannot mask or fake a typing asymmetry; the API path is compared as well"
 RULE = ("generated assemblies (every supported geometry, chains of 1..4, each plasmid independently rotated, 60% hostile) -> every input "
-        "typed in both orientations and the assembly run in both orientations; registry items with exactly one forward and one reverse "
+        "typed in both orientations (as CircularRecord and as a plain annotated SeqRecord) and the assembly run in both orientations, bare and "
+        "with a simple feature and a two-exon join (either strand) inside each retained fragment, half of them rotated by the library so "
+        "that the origin falls inside an exon; registry items with exactly one forward and one reverse "
         "site of their class's cutter typed by the harness-made generic class in both orientations. Non-trivial = the record is accepted "
         "in the forward orientation (so overhangs and target are compared); distinct = distinct (class, sequence).")
-ASSUMPTIONS = ["records over ACGT with exactly the two recognition sites of the definition"]
-FLOORS = {"c12_typing_pairs": 2000, "c12_accepted_pairs": 1500, "c12_assembly_pairs": 400, "c12_registry_pairs": 60}
+ASSUMPTIONS = ["records over ACGT with exactly the two recognition sites of the definition",
+               "the feature-level relation follows from C08 (features inside a retained fragment are inherited) and C14 (reverse complement keeps what a feature denotes); it is checked on features at least one nucleotide clear of the fragment ends"]
+FLOORS = {"c12_typing_pairs": 2000, "c12_accepted_pairs": 1500, "c12_assembly_pairs": 400, "c12_registry_pairs": 60, "c12_annotated_assembly_pairs": 300}
 MUST_REACH = ["CircularRecord.reverse_complement", "AbstractModule.structure", "AbstractVector.structure"]
 NEEDS_REGISTRIES = True
 BUDGET_S = {"quick": 900, "thorough": 7200}
